@@ -85,7 +85,7 @@ def stage_outcome(entry, stage):
     return None
 
 
-def run_backend(pid, art, index, args, backend, workdir, maxsteps, nblocks, timeout, strict=False, footprint_k=2):
+def run_backend(pid, art, index, args, backend, workdir, maxsteps, nblocks, timeout, strict=False, footprint_k=2, skip_counts=False):
     cases, skipped = [], collections.Counter()
     for nm, al in args.items():
         so = stage_outcome(index[nm], backend)
@@ -114,7 +114,7 @@ def run_backend(pid, art, index, args, backend, workdir, maxsteps, nblocks, time
     merged = None
     for ci, chunk in enumerate(chunks):
         wd = os.path.join(workdir, "tlc-%s-%d" % (backend, ci))
-        env, n = refine.make_inputs(art, wd, backend, chunk, maxsteps=maxsteps, nblocks=nblocks, footprint_k=footprint_k)
+        env, n = refine.make_inputs(art, wd, backend, chunk, maxsteps=maxsteps, nblocks=nblocks, footprint_k=footprint_k, skip_counts=skip_counts)
         cfgp = env["SCCV_CFG"]
         cfg = json.load(open(cfgp))
         cfg["strict_encode"] = strict
@@ -186,7 +186,7 @@ def coverage_of(results):
 
 def lockstep_check(pid, tier, backends, plan, maxsteps=6000, nblocks=96, timeout=1500, level="translation_validation",
                    assumptions=None, extra_rule="", directed=None, with_examples=True, post=None, extra_cov=None,
-                   extra=None, footprint_k=2, extra_viols=None):
+                   extra=None, footprint_k=2, extra_viols=None, skip_counts=False):
     t0 = time.time()
     build_harness()
     work = os.path.join(WORK, pid)
@@ -198,7 +198,7 @@ def lockstep_check(pid, tier, backends, plan, maxsteps=6000, nblocks=96, timeout
     allv, allstats, states, trans, nprog, ncases = [], {}, 0, 0, 0, 0
     samples, cov = [], {}
     for be in backends:
-        r, cases, skipped = run_backend(pid, art, index, args, be, work, maxsteps, nblocks, timeout, footprint_k=footprint_k)
+        r, cases, skipped = run_backend(pid, art, index, args, be, work, maxsteps, nblocks, timeout, footprint_k=footprint_k, skip_counts=skip_counts)
         v, stats = classify(pid, be, r, art)
         for k, n in skipped.items():
             stats["skipped:" + k] += n
